@@ -1,18 +1,26 @@
 #!/bin/bash
-# usage: trymut.sh <patch.diff> <prop> [<prop>...]
-# Applies a seeded change to /repo, runs the named checks (quick tier), and
-# restores /repo. Prints one line per check.
+# usage: trymut.sh <patch.diff> <prop> [<prop>...]     (env TIER=quick|thorough, PAR=<n>)
+# Tries a seeded change without touching /repo: makes a scratch worktree of
+# /repo's HEAD under /tmp, applies the change there, runs the named checks
+# against it (VERIF_REPO) with evidence/replays redirected (VERIF_OUT), prints
+# one line per check and removes the worktree and its output.
 export GOFLAGS=-mod=mod GOPROXY=off GOSUMDB=off GOTOOLCHAIN=local
-patch="$1"; shift
-cd /repo || exit 2
-if [ -n "$(git status --porcelain)" ]; then echo "REPO NOT CLEAN"; exit 2; fi
-if ! git apply "$patch"; then echo "PATCH DOES NOT APPLY: $patch"; exit 2; fi
-for p in "$@"; do
-  out=$(cd /verif && timeout 900 bin/vcheck "$p" 2>&1)
+patch="$(readlink -f "$1")"; shift
+wt=$(mktemp -d /tmp/trymut-XXXXXX)
+rmdir "$wt"
+git -C /repo worktree add -q --detach "$wt" HEAD || exit 2
+cleanup() { git -C /repo worktree remove --force "$wt" 2>/dev/null; rm -rf "$wt" "$wt.out"; }
+trap cleanup EXIT
+if ! git -C "$wt" apply "$patch"; then echo "PATCH DOES NOT APPLY: $patch"; exit 2; fi
+mkdir -p "$wt.out"
+run1() {
+  p=$1
+  out=$(cd /verif && VERIF_REPO="$wt" VERIF_OUT="$wt.out/$p" timeout 3600 bin/vcheck "$p" --tier "${TIER:-quick}" 2>&1)
   code=$?
   nv=$(echo "$out" | grep -c '^VIOLATION')
-  first=$(echo "$out" | grep '^VIOLATION' | head -1 | cut -c1-300)
+  first=$(echo "$out" | grep '^VIOLATION' | head -1 | cut -c1-400)
   last=$(echo "$out" | tail -1 | cut -c1-200)
   echo "  $p exit=$code violations=$nv ${first:-$last}"
-done
-cd /repo && git checkout -- . && git clean -fdq
+}
+export -f run1; export wt TIER
+printf '%s\n' "$@" | xargs -P "${PAR:-4}" -I{} bash -c 'run1 {}'
